@@ -615,5 +615,5 @@ LEVEL_TEXT = ("Machine-checked theorems (Coq) about optimise_fun's bookkeeping f
 LEVEL_NOTE = ("Partial: BFGS convergence from random starts is an oracle and is only TESTED (search(): real fits vs closed-form WLS, all sign patterns). "
               "The model of the control flow is hand-written and tied by scripted-oracle runs of the real optimise_fun and main() (value, parameters, "
               "every minimize call's start and signs). Values are exact multiples of 1/8; 10**x is symbolic. No axioms.")
-TECHNIQUE = ("Coq invariant proof over a hand-written model of the optimiser loop with the minimiser, start stream and likelihood as arguments; "
+TECHNIQUE = ("Coq invariant proof over a hand-written model of the optimiser loop with the minimiser, start stream and likelihood as arguments (count_params translator-generated and proved equal to the model's); "
              "scripted-oracle correspondence on the real optimise_fun/main under vm_compute; real-fit testing against closed-form WLS")
